@@ -418,7 +418,8 @@ def classify(case, impl, model, oracle):
 
 
 THEOREMS = ["c11_sign_digest_eq", "c11_sign", "c11_read", "c11_verify_digest_eq", "c11_verify", "c11_verify_iff",
-            "c11_verify_errors", "c11_check_time_no_overflow", "c11_check_time"]
+            "c11_verify_errors", "c11_check_time_no_overflow", "c11_check_time", "c11_digest_injective",
+            "c11_tamper_rejected"]
 
 CHECK = {
     "property": "C11",
@@ -464,7 +465,17 @@ CHECK = {
 }
 
 MANIFEST = {
-    "level_text": "TODO",
-    "level_note": "TODO",
-    "technique": "machine-checked proof in Coq + model/implementation correspondence check",
+    "level_text": ("Coq theorems (no axioms, HMAC universally quantified) that the model of src/message/tsig.rs feeds the "
+                   "authenticator exactly the RFC 8945 4.3 digest in request/response/subsequent mode, that sign_* returns "
+                   "the RFC 4.2 RDATA with the MAC of that digest, that verify_* equals the RFC 5.2 decision (Ok iff allowed "
+                   "MAC size, MAC = truncation of the MAC of the digest, time within fudge; FormErr > BadSig > BadTime; no "
+                   "panic), that the digest encoding is injective on the covered fields and a tampered message is rejected "
+                   "given collision-freeness of HMAC on the two digests; the model is tied to the crate and to a Python "
+                   "hashlib implementation of RFC 8945 on ~70k cases incl. single-octet corruption at every position of "
+                   "~200 signed messages."),
+    "level_note": ("Trusted: Coq kernel, extraction, the hand-written model's correspondence to the Rust code (differentially "
+                   "tested against the real crate and hashlib, not proved), the streaming contract of digest::Mac, HMAC's "
+                   "collision resistance (stated hypothesis of c11_tamper_rejected). Reader/Writer around the TSIG code are C15/C12."),
+    "technique": "machine-checked proof in Coq (model = RFC spec; injectivity) + three-way correspondence check (crate / extracted model / hashlib)",
+    "design_ref": "DESIGN.md C11",
 }
